@@ -40,15 +40,15 @@ add("C05", "simnet", "model-based property testing (generated publisher interlea
 add("C07", "simnet", "model-based property testing with fault injection (generated departures at generated protocol stages / byte offsets / write-side failures)",
     "Generated departures (DISCONNECT, FIN, RST, truncated frames, refusal, write-side discovery with EPIPE/ECONNRESET/delayed failure, "
     "injected failure at a byte offset) in generated service orders; monitors must see exactly one CLIENT_CLOSED per departed "
-    "connection, the socket is closed, ids/names are reusable, survivors' deliveries equal the routing model. Exploration level.",
+    "connection, the socket is closed, ids/names are reusable (also when the holder is found dead while the newcomer's request is being checked: 432-case table), survivors' deliveries equal the routing model. Exploration level.",
     SIM_NOTE + " Logging silenced and clock frozen in this profile so that all manager-originated frames are predicted.", "DESIGN.md 4 C07")
 add("C14", "simnet", "model-based property testing with fault injection (generated writable subsets and write failures; FAILED_MESSAGE oracle in both directions)",
     "Generated writable snapshots and write failures; every required FAILED_MESSAGE must reach both monitors with the right subscriber "
-    "and original header; no notice may be invented or describe a notice/log message; loggers are waited for. Exploration level.",
+    "and original header; no notice may be invented or describe a notice/log message; loggers are waited for; a subscriber that stays unwritable for up to 1200 (thorough 70000) consecutive messages is reported for every one of them. Exploration level.",
     SIM_NOTE + " Logging silenced and clock frozen in this profile.", "DESIGN.md 4 C14")
 add("C19", "simnet", "model-based property testing (generated control/data histories; per-round ACK accounting and logger copy order)",
     "Generated control and data frames incl. repeats, no-ops, refused and repeated handshakes with 0-3 loggers; after every round the "
-    "ACK frames on each connection equal the acknowledged requests processed in that round, logger copies follow processing order. "
+    "ACK frames on each connection equal the acknowledged requests processed in that round, logger copies follow processing order; one module with hundreds of distinct subscriptions is acknowledged for every further request. "
     "Exploration level.", SIM_NOTE, "DESIGN.md 4 C19")
 
 add("C02", "simnet", "stateful property testing of the real Client against the real manager (probe-based delivered-set oracle) + exhaustive enumeration of the 3-type abstract state space",
@@ -71,7 +71,7 @@ add("C03", "simnet", "model-based fuzzing with hostile-input generators (Hypothe
     "Generated hostile connections (header-field boundary values, impossible payload lengths, crafted/garbage control frames, non-ASCII "
     "names, cut frames, dead peers, hundreds of connections, clock jumps) next to a well-behaved conversation that must keep "
     "satisfying the routing/framing/acknowledgement oracles, plus liveness probes; FIN/RST after every byte offset of every protocol "
-    "frame enumerated completely. Exploration level: crash paths are found by search, absence is not proved.",
+    "frame enumerated completely; tables of requests whose log line cannot be delivered and of 40-300 subscribers of the manager's own notices reset in the same instant. Exploration level: crash paths are found by search, absence is not proved.",
     SIM_NOTE + " Hostile clients use types and ids disjoint from the conversation so the model can ignore them.", "DESIGN.md 4 C03")
 
 MSG_NOTE = ("Trusted base: ctypes, struct (float32 round trip), Hypothesis, the domain model in vlib/msgs.py written from the property text and "
@@ -84,7 +84,7 @@ add("C09", "msgpbt", "property-based testing of every validator family with a do
 add("C10", "msgpbt", "round-trip property testing (bytes / dict / JSON / Message JSON / copy) over core, hand-written and generated message classes",
     "Five independent Hypothesis campaigns, one per serialisation route; instances built through the validated field API with extremes, "
     "-0.0, NaN, control characters, full-length strings and all-0x00/0xFF byte arrays; byte-for-byte identity after each round trip, "
-    "storage-disjoint copies, refusal of a foreign version hash. Exploration level.", MSG_NOTE, "DESIGN.md 4 C10")
+    "storage-disjoint copies, refusal of a foreign version hash; definitions whose fields are named like the conversion methods go through the real compiler (refused, or converting like any other). Exploration level.", MSG_NOTE, "DESIGN.md 4 C10")
 
 add("C08", "scripted-peer", "model-based property testing of Client.read_message against a reference reader on a real socket pair; exhaustive adjacency and disconnect-offset tables + generated scripts",
     "A real pyrtma.Client on socketpair()/loopback TCP reads scripted frame sequences (good, unsubscribed, ACK, unknown type, wrong size, "
